@@ -54,7 +54,14 @@ func (r *RNG) Range(lo, hi int) int {
 	}
 	return lo + r.Intn(hi-lo+1)
 }
-func (r *RNG) Bool() bool       { return r.U64()&1 == 1 }
+func (r *RNG) Bool() bool { return r.U64()&1 == 1 }
+
+// Shuffle is a Fisher-Yates shuffle driven by the seeded stream.
+func (r *RNG) Shuffle(n int, swap func(i, j int)) {
+	for i := n - 1; i > 0; i-- {
+		swap(i, r.Intn(i+1))
+	}
+}
 func (r *RNG) Float64() float64 { return float64(r.U64()>>11) / (1 << 53) }
 
 // Chance returns true with probability num/den.
